@@ -328,12 +328,27 @@ def print_entries(entries):
 def load_entries(abstract, header=''):
     """abstract ledger -> (entries, errors, options) through beancount's own pipeline: the directives are printed
     with beancount.parser.printer and re-loaded with loader.load_string, so parsing, booking, padding (pad
-    directives produce 'P' transactions), sorting and validation run.  Only ledgers whose values are printable
-    (terminating decimals, no null metadata, postings with metadata dictionaries) survive the round trip intact."""
+    directives produce 'P' transactions), sorting and validation run.  int metadata values are printed as Decimal
+    (the printer rejects int).  The loaded entries are NOT the abstract ledger any more (sorted by date, lot dates
+    filled in, transactions that fail booking dropped, new line numbers): project them again with abstract_of()."""
     from beancount import loader
     entries, _ = build_entries(abstract)
-    text = header + print_entries(entries)
+    text = header + print_entries([_printable(e) for e in entries])
     return loader.load_string(text)
+
+
+def _printable_meta(meta):
+    # the printer rejects int metadata values (the parser itself only produces Decimal): print them as Decimal
+    if meta is None:
+        return None
+    return {k: (D(v) if isinstance(v, int) and not isinstance(v, bool) and k != 'lineno' else v) for k, v in meta.items()}
+
+
+def _printable(e):
+    e = e._replace(meta=_printable_meta(e.meta))
+    if isinstance(e, data.Transaction):
+        e = e._replace(postings=[p._replace(meta=_printable_meta(p.meta)) for p in e.postings])
+    return e
 
 
 def connect(entries, options, errors=()):
